@@ -78,3 +78,27 @@ Theorem C19_replace_at_left_untouched :
   forall (s : str) q x p, 0 <= p -> p < q -> q < len s -> char_at (replace_at s q x) p = char_at s p.
 Proof. exact replace_at_before. Qed.
 Print Assumptions C19_replace_at_left_untouched.
+
+(* ---- the text of autolinks is left alone -------------------------------------------------------------------
+   For every quotes option and every children list: process_inlines returns the content of token j unchanged whenever an
+   autolink is open at j - the count of  link_open(info = auto)  minus  link_close(info = auto)  over tokens 0..j, computed as
+   the loop computes it, is not zero - and whenever token j is not a text token.  (It rewrites only the token it scans and
+   tokens whose quotes are on its stack of openers, and it scans text tokens outside autolinks only.) *)
+From MD Require Import Lemmas.QuoteAuto.
+Theorem C19_autolink_text_untouched :
+  forall quotes tokens j,
+    depth_after (firstn (S j) tokens) 0 <> 0 -> content_at (process_inlines quotes tokens) j = content_at tokens j.
+Proof. exact process_inlines_skips_autolinks. Qed.
+Print Assumptions C19_autolink_text_untouched.
+
+Theorem C19_non_text_content_untouched :
+  forall quotes tokens j t,
+    nth_error tokens j = Some t -> ttype t <> s_text -> content_at (process_inlines quotes tokens) j = content_at tokens j.
+Proof. exact process_inlines_skips_non_text. Qed.
+Print Assumptions C19_non_text_content_untouched.
+
+(* the shape  link_open(auto), text, link_close(auto)  of  <http://a.b/"c">  meets the hypothesis at the text token *)
+Example C19_autolink_shape :
+  forall lo u lc, auto_open lo = true -> auto_close lo = false -> auto_open u = false -> auto_close u = false ->
+  depth_after (firstn 2 [lo; u; lc]) 0 <> 0.
+Proof. exact autolink_depth. Qed.
